@@ -4,9 +4,49 @@ from reg_lib import *
 PROPS = "Props/C17"
 
 
+def annotation_unit(ctx):
+    """fixed unit: TL1 and TL2 functions (and one plain type) carrying 2-3 annotations in EVERY order"""
+    import itertools
+    d = Path(ctx.scratch) / "ann_orders"
+    d.mkdir(exist_ok=True)
+    lines, n = [], 0
+    for a, b in itertools.permutations(ANN_POOL, 2):
+        lines.append(f"@{a} @{b} ao.p{n} x:int => Int;")
+        n += 1
+    triples = list(itertools.permutations(ANN_POOL, 3))
+    ctx.rng.shuffle(triples)
+    for t in triples[:24] + [("write", "read", "any"), ("write", "kphp", "internal"), ("readwrite", "internal", "any")]:
+        lines.append("".join(f"@{a} " for a in t) + f"ao.t{n} x:int y:string => String;")
+        n += 1
+    lines.append("@write @audit @any ao.custom x:int => Int;")       # an annotation the generator does not know, in the middle
+    lines.append("@write @kphp ao.annotatedType x:int = ao.AnnotatedType;")
+    (d / "s.tl").write_text(randschema.HEADER + "\n".join(lines) + "\n")
+    l2, m = ["ao2.item = x:int32 y:string;"], 0
+    for a, b in list(itertools.permutations(ANN_POOL, 2))[::2]:
+        l2.append(f"@{a} @{b} ao2.f{m}#{0x700 + m:08x} id:int32 => ao2.item;")
+        m += 1
+    for t in triples[24:34]:
+        l2.append("".join(f"@{a} " for a in t) + f"ao2.g{m}#{0x700 + m:08x} id:int32 v:ao2.item => ao2.item;")
+        m += 1
+    (d / "s.tl2").write_text("\n".join(l2) + "\n")
+    return ("ann_orders", [d / "s.tl", d / "s.tl2"], ["--tl2WhiteList=*"], "*", True)
+
+
+def text_annotations(files):
+    """combinator name -> declared annotations, parsed from the schema TEXT (independent of the kernel and the generator)"""
+    import re
+    res = {}
+    for f in files:
+        for line in Path(f).read_text(errors="replace").splitlines():
+            m = re.match(r"^((?:@\w+\s+)+)([A-Za-z_][\w.]*)", line.split("//")[0].strip())
+            if m:
+                res[m.group(2)] = re.findall(r"@(\w+)", m.group(1))
+    return res
+
+
 def specs_for(ctx, fam):
     quick = ctx.quick()
-    return repo_corpus(quick) + rand_specs(ctx, 3 if quick else 24, prefix="rg", verifdump=fam.bins.get("verifdump"))
+    return repo_corpus(quick) + [annotation_unit(ctx)] + rand_specs(ctx, 3 if quick else 24, prefix="rg", verifdump=fam.bins.get("verifdump"))
 
 
 def le32(tag):
@@ -70,6 +110,13 @@ def run(ctx):
             fam.oracle_fail(u, f"C17:dup-name:{u.name}", "duplicate names in GetAllTLItems()", {"items": onames})
         items = {}
         bytop = {x["tlName"]: x for x in ins if x.get("topLevel") and x["kind"] in ("struct", "union")}
+        declared = text_annotations(u.files)
+        for n, decl in declared.items():     # translator tie: the dump's raw annotation lists are the schema text's
+            if n in bytop and sorted(set(decl)) != sorted(set(bytop[n].get("annotations") or [])):
+                with fam.lock:
+                    fam.unit_errors.append((u.name, f"kernel dump lists annotations {bytop[n].get('annotations')} for {n}, the schema text declares {decl}"))
+        fam.add(items_with_2plus_annotations=sum(1 for n, decl in declared.items() if n in bytop and len(set(decl)) >= 2),
+                items_with_unsorted_annotations=sum(1 for n, decl in declared.items() if n in bytop and decl != sorted(decl)))
         for x in bytop.values():
             if x["kind"] == "struct" or (x.get("hasTL2") and not x.get("isMaybe")):
                 if x["tlName"] not in onames:
@@ -97,7 +144,8 @@ def run(ctx):
             if x is None:
                 fam.oracle_fail(u, sig, "registered item is not a top-level type of the schema", {"op": l, "go": g})
             else:
-                want_ann = "".join("1" if a in (x.get("annotations") or []) else "0" for a in anns) or "-"
+                decl = declared.get(name, x.get("annotations") or [])     # the schema text's own list when the combinator is found there
+                want_ann = "".join("1" if a in decl else "0" for a in anns) or "-"
                 want = (x["tag"], str(bool(x.get("isFunction"))).lower(), str(not x.get("originTL2")).lower(), str(bool(x.get("hasTL2"))).lower(), f"{want_ann}/{len(anns)}")
                 got = (tag, kv["fun"], kv["tl1"], kv["tl2"], kv["ann"])
                 if want != got:
